@@ -8,7 +8,9 @@ def c12Sources : List (String × String) := [
   ("tensordict/base.py:TensorDictBase._map", "bd74d4003728324b"),
   ("tensordict/_td.py:TensorDict._multithread_apply_flat", "44679564665d0b6d"),
   ("tensordict/_td.py:TensorDict._multithread_rebuild", "c0cd5b13c51f35ed"),
-  ("tensordict/utils.py:TensorDictFuture.result", "9864184530958cbb")
+  ("tensordict/utils.py:TensorDictFuture.result", "9864184530958cbb"),
+  ("tensordict/utils.py:_proc_init", "af7edb7450e91b2c"),
+  ("tensordict/base.py:TensorDictBase.map", "8e0fd1b34181fa27")
 ]
 
 /-- AST hash (docstring removed) of the functions the C11 models transcribe, in the working tree -/
@@ -35,7 +37,11 @@ def c10Sources : List (String × String) := [
   ("tensordict/memmap.py:MemoryMappedTensor.from_tensor", "190f70b8427d6b4e"),
   ("tensordict/memmap.py:MemoryMappedTensor.from_filename", "8dfaa7568b943a89"),
   ("tensordict/base.py:TensorDictBase.load_memmap_", "fdb521631e21833a"),
-  ("tensordict/base.py:TensorDictBase.memmap_refresh_", "badbf115a6cd6d8c")
+  ("tensordict/base.py:TensorDictBase.memmap_refresh_", "badbf115a6cd6d8c"),
+  ("tensordict/memmap.py:MemoryMappedTensor.filename", "a9a5fbf22cd5bedd"),
+  ("tensordict/tensorclass.py:_memmap_", "23e42771633c6b5c"),
+  ("tensordict/tensorclass.py:_from_tensordict", "e426c8f109f0adb9"),
+  ("tensordict/tensorclass.py:NonTensorData._memmap_", "a7433415db3d7ac4")
 ]
 
 end TdVerif.Gen
